@@ -256,7 +256,33 @@ class Proto:
         pos = [0]
         labels = []
 
+        memo = {}
+
+        def canon(c):
+            try:
+                return c.canonical if isinstance(c, sp.core.relational.Relational) else c
+            except Exception:
+                return c
+
         def decide(c, node):
+            # one condition, one truth value within a call: a test kept in a flag and read twice (`let too_small = dt < dt_min; if !too_small {…} Err(if too_small {…})`)
+            # is not two independent choices.  Conditions are expressions over the symbols of the entry state, so equal expressions are equal values.
+            if isinstance(c, sp.Basic) and not isinstance(c, (sp.Symbol,)):
+                k1 = canon(c)
+                if k1 in memo:
+                    return memo[k1]
+                try:
+                    k2 = canon(sp.Not(c))
+                except Exception:
+                    k2 = None
+                if k2 is not None and k2 in memo:
+                    return not memo[k2]
+                d = decide_fresh(c, node)
+                memo[k1] = d
+                return d
+            return decide_fresh(c, node)
+
+        def decide_fresh(c, node):
             if pos[0] < len(decisions):
                 d = decisions[pos[0]]
             else:
